@@ -10,6 +10,33 @@ from ..model import AnalysisError, unparse, walk_no_nested
 from .common import root_of_expr, path_from_param, const_value, floor, call_name, is_call_to, dominates
 
 
+def _module_rooted(recv):
+    r = recv
+    while isinstance(r, ast.Attribute):
+        r = r.value
+    return isinstance(r, ast.Name) and r.id in ('np', 'numpy', 'pandas', 'pd', 'math', 'itertools', 'functools', 'styler', 'df')
+
+
+def _passes_own_arguments(call, params, fi):
+    """Does the call hand every parameter on unchanged, each in the position or under the keyword of the same name?"""
+    got = {}
+    for a, p in zip(call.args, params):
+        got[p] = a
+    if len(call.args) > len(params):
+        return False
+    for k in call.keywords:
+        if k.arg is None or k.arg in got:
+            return False
+        got[k.arg] = k.value
+    if set(got) != set(params):
+        return False
+    for p, a in got.items():
+        a0 = strip_refs(a)
+        if not (isinstance(a0, Param) and a0.name == p and (fi is None or a0.func is fi)):
+            return False
+    return True
+
+
 def forwarding(ctx, rule, only=None):
     """The per-well function of PlateSlicer.remove / fill_to is the same-named Container method on the element with
     the outer parameters unchanged; Plate.* delegate to self[:]."""
@@ -39,9 +66,7 @@ def forwarding(ctx, rule, only=None):
                 recv = strip_refs(body.func.value)
                 recv_ok = isinstance(recv, Param) and recv.name == eparams[0] or \
                     (isinstance(recv, ast.Name) and recv.id == eparams[0])
-                args_ok = len(body.args) == len(params) and not body.keywords and all(
-                    isinstance(strip_refs(a), Param) and strip_refs(a).name == p and strip_refs(a).func is fi
-                    for a, p in zip(body.args, params))
+                args_ok = _passes_own_arguments(body, params, fi)
                 ok = recv_ok and args_ok
                 fact = f"per well: elem.{name}({', '.join(show(a, 15) for a in body.args)})"
             ctx.ob(rule, fi, s.lineno, f"PlateSlicer.{name} forwards to Container.{name} per well with its own arguments",
@@ -68,8 +93,7 @@ def forwarding(ctx, rule, only=None):
                 whole = isinstance(r, ast.Subscript) and isinstance(strip_refs(r.value), Param) and \
                     isinstance(r.slice, ast.Slice) and r.slice.lower is None and r.slice.upper is None and r.slice.step is None
                 pp = pf.param_names()
-                args_ok = len(v.args) == len(pp) and all(isinstance(strip_refs(a), Param) and strip_refs(a).name == p
-                                                         for a, p in zip(v.args, pp))
+                args_ok = _passes_own_arguments(v, pp, None)
                 ok = whole and args_ok
         ctx.ob(rule, pf, pf.node.lineno, f"Plate.{name} delegates to self[:].{name} with its own arguments", ok,
                fact=fact, why='the whole-plate operation does not address all wells', key=f"delegation Plate.{name}")
@@ -108,8 +132,8 @@ def arity(ctx, rule):
                 cands = [m] if m is not None else cands
             elif name in EXTERNAL_METHOD_NAMES:
                 continue
-            elif isinstance(recv, ast.Name) and recv.id in ('np', 'numpy', 'pandas', 'styler', 'df'):
-                continue
+            elif _module_rooted(recv):
+                continue            # numpy.linalg.solve(..), np.shape(..): a function of an imported module
             if isinstance(recv, ast.Call) and getattr(recv.func, 'id', '') == 'super':
                 continue
             checked += 1
